@@ -10,7 +10,7 @@ rsync -a --delete --exclude target --exclude .git /repo/ $S/ || exit 2
 # every crate is rebuilt from what is on disk now (no stale mutant from an earlier run can survive).
 find $S -name "*.rs" -not -path "*/target/*" -exec touch {} +
 for c in "$@"; do
-  VERIF_REPO=$S /verif/check $c --tier quick > /tmp/scr_main/$c.log 2>&1
+  VERIF_REPO=$S VERIF_EVIDENCE=/tmp/scr_main/evidence VERIF_REPLAYS=/tmp/scr_main/replays VERIF_WORK=/tmp/scr_main/work /verif/check $c --tier quick > /tmp/scr_main/$c.log 2>&1
   rc=$?
   echo "== $c exit=$rc  violations=$(grep -c '^VIOLATION' /tmp/scr_main/$c.log)"
   grep -v '^   \|^VIOLATION' /tmp/scr_main/$c.log | tail -12
